@@ -3,6 +3,8 @@ arithmetic, scoped to BitIterator) and NARROW (shift-amount narrowing). DESIGN Â
 All three are evaluated on the `dbg` configuration, where each checked operation carries an
 Assert(Overflow(..)) / Assert(RemainderByZero) terminator that marks the site.
 """
+import re
+
 from . import mir, guard
 from .mir import show, is_call, is_bin, walk, contains
 
@@ -499,3 +501,89 @@ def nopanic_sites(crate, want):
         if n == 0:
             out.append((b, "%s|no panic site" % b.key, "pass", "no bounds check and no diverging call in the body"))
     return out
+
+
+# ---------------------------------------------------------------------------------------------
+# OVF-SHIFT: overflow-checked arithmetic on the (saturated) shift amount inside the shift kernels
+# ---------------------------------------------------------------------------------------------
+
+def _is_bu(e):
+    return isinstance(e, tuple) and e and e[0] == "assoc" and e[1] in ("BIT_UNIT", "BITS")
+
+
+def _at_most_word(e, depth=0):
+    """e <= BIT_UNIT for every input: x % BU, BU - (x % BU), min(..) with such an argument, (x % BU) + 1"""
+    if depth > 4 or not isinstance(e, tuple):
+        return False
+    if is_bin(e, "Rem") and _is_bu(e[3]):
+        return True
+    if is_bin(e, "Sub") and _is_bu(e[2]) and is_bin(e[3], "Rem") and _is_bu(e[3][3]):
+        return True
+    if is_bin(e, "Add") and e[3] == ("int", 1) and is_bin(e[2], "Rem") and _is_bu(e[2][3]):
+        return True
+    if is_call(e, "min") and len(e[3]) == 2:
+        return any(_at_most_word(a, depth + 1) for a in e[3])
+    return False
+
+
+def shift_amount_arith(crate):
+    """The shift kernels saturate an amount that does not fit usize to usize::MAX, so any overflow-checked `+` / `*` that
+    involves the amount is a build-profile divergence (panic with overflow checks, wrap-around without) unless it is one
+    of the bounded forms:
+      (.. % BIT_UNIT) + 1                          at most BIT_UNIT
+      idx + (something <= BIT_UNIT)                idx < length <= usize::MAX - BIT_UNIT in practice (trusted)
+      idx + amount  with idx a counter starting at 0 that only advances while idx + amount < length  (trusted: the
+                                                   reviewed loop-guard idiom)
+    Anything else - e.g. `word_index * BIT_UNIT + amount` evaluated for every word - is reported."""
+    res = []
+    for b in crate.bodies:
+        if b.trait not in ("Shl", "Shr", "ShlAssign", "ShrAssign") or b.self_family not in ("Bvf", "Bvd") or b.arg_count < 2:
+            continue
+        rhs = ("param", b.local_name(2))
+
+        def amount_dep(e):
+            return contains(e, lambda z: is_call(z, ("unwrap_or", "map_or")) and z[3] and is_call(z[3][0], "try_from")
+                            and tuple(z[3][0][3]) == (rhs,))
+
+        seen = set()
+        for bb, t in b.iter_asserts():
+            if t["kind"] not in ("Overflow(Add)", "Overflow(Mul)"):
+                continue
+            x, y = (b.e_operand(o) for o in t["ops"])
+            if not (amount_dep(x) or amount_dep(y)):
+                continue
+            key = "%s|%s %s %s" % (b.key, show(x, False)[:60], "+" if "Add" in t["kind"] else "*", show(y, False)[:60])
+            key = re.sub(r"iv\d+", "iv", key)
+            if key in seen:
+                continue
+            seen.add(key)
+            if "Add" in t["kind"]:
+                if (y == ("int", 1) and is_bin(x, "Rem") and _is_bu(x[3])) or (x == ("int", 1) and is_bin(y, "Rem") and _is_bu(y[3])):
+                    res.append((b, key, "pass", "(.. % BIT_UNIT) + 1 <= BIT_UNIT"))
+                    continue
+                for v, o in ((x, y), (y, x)):
+                    if v[0] == "var" and len(v) > 2:
+                        if _at_most_word(o):
+                            res.append((b, key, "trusted", "index + (at most BIT_UNIT): the index is below the length"))
+                            break
+                        init = b.init_expr(v[2]) if len(b.full_defs(v[2])) == 1 else None
+                        firsts = sorted(d[2:] for d in b.defs.get(v[2], []) if d[0] == "full")
+                        first_init = None
+                        if firsts:
+                            blk, idx = firsts[0]
+                            st = b.blocks[blk]["st"][idx] if idx < len(b.blocks[blk]["st"]) else None
+                            if st is not None and st["s"] == "assign":
+                                first_init = b.e_rvalue(st["r"])
+                        if amount_dep(o) and not amount_dep(v) and (init == ("int", 0) or first_init == ("int", 0)):
+                            res.append((b, key, "trusted", "counter starting at 0 + amount, evaluated as the loop guard `idx + amount < len` "
+                                        "(the counter only advances while the sum stays below the length)"))
+                            break
+                else:
+                    res.append((b, key, "violation",
+                                "overflow-checked `%s + %s` involves the shift amount, which is saturated to usize::MAX for amounts that "
+                                "do not fit: it panics with overflow checks and wraps around without (the shifted vector then keeps "
+                                "stale bits instead of being cleared)" % (show(x, False)[:60], show(y, False)[:60])))
+            else:
+                res.append((b, key, "violation", "overflow-checked multiplication involving the saturated shift amount: %s * %s"
+                            % (show(x, False)[:60], show(y, False)[:60])))
+    return res
